@@ -6,6 +6,7 @@ import DropletsVerif.Driver.C10
 import DropletsVerif.Driver.C06
 import DropletsVerif.Driver.C02
 import DropletsVerif.Driver.C18
+import DropletsVerif.Driver.C19
 
 open DV.Drv
 
@@ -17,6 +18,7 @@ def dispatch (line : String) : String :=
   | "c06" :: args => handleC06 args
   | "c02" :: args => handleC02 args
   | "c18" :: args => handleC18 args
+  | "c19" :: args => handleC19 args
   | _ => "bad-op"
 
 partial def loop (h : IO.FS.Stream) (out : IO.FS.Stream) : IO Unit := do
